@@ -87,6 +87,9 @@ def oracle(stream, header, ops, obs):
         g = groups[k]
         if not g or g[0] == "panic" or len(g) < 2 or g[1] == "panic":
             return bad(k, "mst-panicked-on-a-valid-graph")
+        if any("nan-twin-mismatch" in x for x in g):
+            return bad(k, "mst-prefers-a-nan-weight-to-a-finite-one")
+        g = [x for x in g if "twin" not in x]
         ns, es = nums(g[0]), nums(g[1])
         if ns != a:
             return bad(k, "mst-node-stream-is-not-all-nodes-in-order-before-the-edges", a)
